@@ -571,7 +571,8 @@ func (p *printer) writeListInner(v *lisp.LVal, indent int) {
 //
 // Found by FuzzFormat.
 func (p *printer) tryPrefixForm(v *lisp.LVal, indent int) bool {
-	if len(v.Cells) != 2 || v.Cells[0].Type != lisp.LSymbol {
+	if len(v.Cells) != 2 || v.Cells[0].Type != lisp.LSymbol || v.Cells[0].IsQuoted() {
+		// A quoted head ('lisp:function f) is a different tree from #'f.
 		return false
 	}
 	// The shorthand has nowhere to put a comment written inside the form: it
